@@ -26,6 +26,7 @@ type c04Case struct {
 	Storm  bool   `json:"storm"`
 	Reps   int    `json:"reps"`
 	DocRev bool   `json:"docrev,omitempty"` // the sequenceFlow elements appear in the document in the reverse of the gateway's list order
+	Errs   int    `json:"errs,omitempty"`   // bit i: condition i cannot be evaluated (reads a variable that does not exist): error trace, counts as not true
 	Retype int    `json:"retype,omitempty"` // index+1 into c04Retypes: the variable changes its kind between two gateways
 	Funnel bool   `json:"funnel,omitempty"` // the tokens are merged into ONE incoming flow of the gateway (fork -> merging exclusive gateway -> X)
 }
@@ -37,7 +38,7 @@ func (c *c04Case) expected() int {
 		if pos == c.DefPos {
 			continue
 		}
-		if c.Truth>>ci&1 == 1 {
+		if c.Truth>>ci&1 == 1 && c.Errs>>ci&1 == 0 {
 			return pos
 		}
 		ci++
@@ -92,7 +93,11 @@ func c04Graph(c *c04Case) (*gen.Graph, []string) {
 			if c.Source == "obj" {
 				kind = "obj"
 			}
-			g.Connect(x, b, &gen.Cond{Kind: kind, Var: fmt.Sprintf("c%d", ci), Op: ">", Val: 0})
+			if c.Errs>>ci&1 == 1 {
+				g.Connect(x, b, &gen.Cond{Kind: "fail"})
+			} else {
+				g.Connect(x, b, &gen.Cond{Kind: kind, Var: fmt.Sprintf("c%d", ci), Op: ">", Val: 0})
+			}
 			if c.Source == "obj" {
 				g.Objects = append(g.Objects, gen.DataObject{ID: fmt.Sprintf("c%d", ci), Name: fmt.Sprintf("c%d", ci)})
 			}
@@ -135,6 +140,20 @@ func c04Cases(tier string, seed uint64) []fw.Case {
 					c := c04Case{K: k, DefPos: def, Truth: truth, Tokens: 1, Lang: v[0], Source: v[1], DocRev: true}
 					c.Name = fmt.Sprintf("docrev-k%d-def%d-t%d-%s", k, def, truth, v[0])
 					cs = append(cs, fw.MkCase("stepwise", &c))
+				}
+			}
+		}
+	}
+	// conditions that cannot be evaluated: an error trace each, the alternative counts as not true
+	for k := 2; k <= 3; k++ {
+		for _, def := range []int{-1, k} {
+			for truth := 0; truth < 1<<k; truth++ {
+				for errs := 1; errs < 1<<k; errs++ {
+					for tokens := 1; tokens <= 2; tokens++ {
+						c := c04Case{K: k, DefPos: def, Truth: truth, Errs: errs, Tokens: tokens, Lang: "expr", Source: "var"}
+						c.Name = fmt.Sprintf("errs-k%d-def%d-t%d-e%d-tok%d", k, def, truth, errs, tokens)
+						cs = append(cs, fw.MkCase("stepwise", &c))
+					}
 				}
 			}
 		}
@@ -294,6 +313,9 @@ func c04Run(c *c04Case, env *fw.Env, v *fw.V) {
 	if c.DocRev {
 		cls += "-docrev"
 	}
+	if c.Errs != 0 {
+		cls += "-errs"
+	}
 	o := drive.Opts{ExtraSubs: 1}
 	vals := map[string]any{}
 	for i := 0; i < c.K; i++ {
@@ -362,14 +384,22 @@ func c04Run(c *c04Case, env *fw.Env, v *fw.V) {
 	if nerr != wantErr {
 		v.Violate("error-trace-count", dcls, "%d no-effective-flow error traces identifying the gateway (expected %d)", nerr, wantErr)
 	}
-	if n := in.Count("Error", ""); n > 0 {
+	wantCondErr := 0
+	for i := 0; i < c.K; i++ {
+		if c.Errs>>i&1 == 1 {
+			wantCondErr += c.Tokens
+		}
+	}
+	if n := in.Count("Error", ""); n > wantCondErr {
 		l := in.Log(0)
 		for _, e := range l {
 			if e.Kind == "Error" {
-				v.Violate("unexpected-error-trace", cls, "%s", e.Err)
+				v.Violate("unexpected-error-trace", cls, "%d error traces (expected %d for the conditions that cannot be evaluated): %s", n, wantCondErr, e.Err)
 				break
 			}
 		}
+	} else if n < wantCondErr {
+		v.Violate("condition-error-trace-missing", cls, "%d error traces, %d condition(s) that cannot be evaluated were evaluated by %d token(s)", n, wantCondErr/c.Tokens, c.Tokens)
 	}
 	// finish the instance
 	for _, r := range in.Pending() {
@@ -413,7 +443,7 @@ func init() {
 			v.Nontrivial = true
 			return v
 		},
-		Rule:       "exhaustive grid: k in 1..4 conditional flows x default absent / at each list position x all 2^k truth assignments x 1..3 tokens arriving together x {expr over variables, expr over data objects, XPath over variables} (1896 cells) with the closed-form oracle 'first true in list order, else default, else error trace + no flow', one flow trace per token; storm variants perturb the probe/report hand-shake of concurrent tokens; funnel shapes (4 / 8 tokens merged into one incoming flow); definitions with the sequence flows in reverse document order; two gateways in a row evaluated by one token with a variable that changes its kind in between (integer to string / boolean / float / object / array); every cell is non-trivial (a condition or the default decides); distinct = descriptor hash",
+		Rule:       "exhaustive grid: k in 1..4 conditional flows x default absent / at each list position x all 2^k truth assignments x 1..3 tokens arriving together x {expr over variables, expr over data objects, XPath over variables} (1896 cells) with the closed-form oracle 'first true in list order, else default, else error trace + no flow', one flow trace per token; storm variants perturb the probe/report hand-shake of concurrent tokens; funnel shapes (4 / 8 tokens merged into one incoming flow); definitions with the sequence flows in reverse document order; conditions that cannot be evaluated (every non-empty subset of k = 2..3 conditions: an error trace each per token, the alternative counts as not true); two gateways in a row evaluated by one token with a variable that changes its kind in between (integer to string / boolean / float / object / array); every cell is non-trivial (a condition or the default decides); distinct = descriptor hash",
 		Exhaustive: func(string) bool { return true },
 		Assumptions: []string{"XPath conditions address variables as //<name> (the engine serialises the variable map with anyxml, whose root element depends on the number of variables)", "data-object conditions are exercised in expr only (the XPath engine exposes no usable data-object function name)"},
 	})
